@@ -217,6 +217,222 @@ theorem C14_dir_snapshot_reads (ip₁ ip₂ : Bool) (s : DirFS V) (t₁ t₂ : N
     · simp only [h1, h2, if_false]
       exact hv.2.2 (by simp [h1]) (by simp [h2])
 
+/-! ## listings (`keys`, `items`, `__asdict__`, `cache.load`) while other processes only add entries -/
+
+/-- the disk only grows: every listed entry stays, unchanged (writers that store under new names) -/
+def Grows (s s' : DirFS V) : Prop := ∀ n d, get? s (.key n) = some d → get? s' (.key n) = some d
+
+/-- every listed entry is complete, and has an input file exactly when its key needs one -/
+def Complete (needInp : String → Bool) (s : DirFS V) : Prop :=
+  ∀ n d, get? s (.key n) = some d → d.value.isSome = true ∧ d.inp.isSome = needInp n
+
+def KeyOK (s : DirFS V) (k : RKey) : Prop := k.real = true ∧ (get? s (.key k.name)).isSome = true
+
+/-- what a reader holds at any moment is backed by the disk: names it still has to visit exist,
+keys it has classified are real and exist, values it has read are the values on disk -/
+def Good (s : DirFS V) : RPhase V → Prop
+  | .start => True
+  | .classify todo ks _ => (∀ n ∈ todo, (get? s (.key n)).isSome = true) ∧ (∀ k ∈ ks, KeyOK s k)
+  | .readInput n todo ks _ => (∃ d, get? s (.key n) = some d ∧ d.inp.isSome = true) ∧
+      (∀ m ∈ todo, (get? s (.key m)).isSome = true) ∧ (∀ k ∈ ks, KeyOK s k)
+  | .values todo acc => (∀ k ∈ todo, KeyOK s k) ∧
+      (∀ p ∈ acc, p.1.real = true ∧ (get? s (.key p.1.name)).bind DDir.value = some p.2)
+  | .done .keyError => False
+  | .done (.keys ks) => ∀ k ∈ ks, KeyOK s k
+  | .done (.dict acc) => ∀ p ∈ acc, p.1.real = true ∧ (get? s (.key p.1.name)).bind DDir.value = some p.2
+  | .done _ => True
+
+theorem keyOK_mono {s s' : DirFS V} (h : Grows s s') (k : RKey) (hk : KeyOK s k) : KeyOK s' k := by
+  refine ⟨hk.1, ?_⟩
+  cases hg : get? s (.key k.name) with
+  | none => have := hk.2; simp [hg] at this
+  | some d => simp [h _ d hg]
+
+theorem isSome_mono {s s' : DirFS V} (h : Grows s s') (n : String) (hn : (get? s (.key n)).isSome = true) :
+    (get? s' (.key n)).isSome = true := by
+  cases hg : get? s (.key n) with
+  | none => simp [hg] at hn
+  | some d => simp [h _ d hg]
+
+theorem val_mono {s s' : DirFS V} (h : Grows s s') (n : String) (v : V)
+    (hv : (get? s (.key n)).bind DDir.value = some v) : (get? s' (.key n)).bind DDir.value = some v := by
+  cases hg : get? s (.key n) with
+  | none => simp [hg] at hv
+  | some d => rw [h _ d hg]; rw [hg] at hv; exact hv
+
+theorem good_mono {s s' : DirFS V} (h : Grows s s') (ph : RPhase V) (hg : Good s ph) : Good s' ph := by
+  cases ph with
+  | start => trivial
+  | classify todo ks vals => exact ⟨fun n hn => isSome_mono h n (hg.1 n hn), fun k hk => keyOK_mono h k (hg.2 k hk)⟩
+  | readInput n todo ks vals =>
+    obtain ⟨⟨d, hd, hi⟩, h2, h3⟩ := hg
+    exact ⟨⟨d, h _ d hd, hi⟩, fun m hm => isSome_mono h m (h2 m hm), fun k hk => keyOK_mono h k (h3 k hk)⟩
+  | values todo acc =>
+    exact ⟨fun k hk => keyOK_mono h k (hg.1 k hk), fun p hp => ⟨(hg.2 p hp).1, val_mono h _ _ (hg.2 p hp).2⟩⟩
+  | done r =>
+    cases r with
+    | keyError => exact hg
+    | keys ks => exact fun k hk => keyOK_mono h k (hg k hk)
+    | dict acc => exact fun p hp => ⟨(hg p hp).1, val_mono h _ _ (hg p hp).2⟩
+    | _ => trivial
+
+theorem good_advance (s : DirFS V) (ph : RPhase V) (hg : Good s ph) : Good s (advance ph) := by
+  cases ph with
+  | classify todo ks vals =>
+    cases todo with
+    | nil =>
+      cases vals with
+      | true =>
+        cases ks with
+        | nil => simp [advance, Good]
+        | cons k ks => simp only [advance, Good]; exact ⟨hg.2, by simp⟩
+      | false => simp only [advance, Good]; exact hg.2
+    | cons n todo => exact hg
+  | values todo acc =>
+    cases todo with
+    | nil => simp only [advance, Good]; exact hg.2
+    | cons k todo => exact hg
+  | start => exact hg
+  | readInput _ _ _ _ => exact hg
+  | done _ => exact hg
+
+theorem mem_visNames (s : DirFS V) (n : String) : n ∈ visNames s ↔ (get? s (.key n)).isSome = true := by
+  have : (get? s (.key n)).isSome = true ↔ DName.key n ∈ keys s := has_iff_mem_keys s (.key n)
+  rw [this]
+  simp only [visNames, keys, List.mem_filterMap, List.mem_map]
+  constructor
+  · rintro ⟨p, hp, he⟩
+    refine ⟨p, hp, ?_⟩
+    cases hp1 : p.1 with
+    | key m => simp [hp1] at he; rw [he]
+    | temp i => simp [hp1] at he
+  · rintro ⟨p, hp, he⟩
+    exact ⟨p, hp, by simp [he]⟩
+
+/-- one helper call keeps the reader backed by the disk -/
+theorem good_step (needInp : String → Bool) (order : List String) (s : DirFS V) (k : RKind)
+    (hk : k = .keys ∨ k = .asdict) (hc : Complete needInp s) (ph : RPhase V) (hg : Good s ph) :
+    Good s (rstep needInp order s k ph) := by
+  cases ph with
+  | start =>
+    have hall : ∀ n ∈ (order.filter (· ∈ visNames s)) ++ ((visNames s).filter (· ∉ order)), (get? s (.key n)).isSome = true := by
+      intro n hn
+      simp only [List.mem_append, List.mem_filter, decide_eq_true_eq] at hn
+      rcases hn with ⟨_, h⟩ | ⟨h, _⟩ <;> exact (mem_visNames s n).mp h
+    rcases hk with rfl | rfl <;> (simp only [rstep]; exact good_advance s _ ⟨hall, by simp⟩)
+  | classify todo ks vals =>
+    cases todo with
+    | nil => exact hg
+    | cons n todo =>
+      have hn := hg.1 n (by simp)
+      cases hget : get? s (.key n) with
+      | none => simp [hget] at hn
+      | some d =>
+        simp only [rstep, hget]
+        have hcd := hc n d hget
+        by_cases hi : d.inp.isSome = true
+        · simp only [hi, if_true]
+          exact ⟨⟨d, hget, hi⟩, fun m hm => hg.1 m (List.mem_cons_of_mem _ hm), hg.2⟩
+        · simp only [hi]
+          apply good_advance
+          refine ⟨fun m hm => hg.1 m (List.mem_cons_of_mem _ hm), ?_⟩
+          intro key hkey
+          simp only [List.mem_append, List.mem_singleton] at hkey
+          rcases hkey with h | rfl
+          · exact hg.2 key h
+          · refine ⟨?_, by simp [hget]⟩
+            have : needInp n = false := by rw [← hcd.2]; simpa using hi
+            simp [this]
+  | readInput n todo ks vals =>
+    obtain ⟨⟨d, hd, hi⟩, h2, h3⟩ := hg
+    simp only [rstep, hd]
+    have hv := (hc n d hd).1
+    -- a complete entry with an input file has a complete input file
+    obtain ⟨o, inp⟩ := d
+    cases inp with
+    | none => simp at hi
+    | some f =>
+      cases f with
+      | full u =>
+        cases u
+        simp only
+        apply good_advance
+        refine ⟨h2, ?_⟩
+        intro key hkey
+        simp only [List.mem_append, List.mem_singleton] at hkey
+        rcases hkey with h | rfl
+        · exact h3 key h
+        · exact ⟨rfl, by simp [hd]⟩
+      | empty => cases o <;> simp [DDir.value] at hv <;> (rename_i x; cases x <;> simp at hv)
+      | torn => cases o <;> simp [DDir.value] at hv <;> (rename_i x; cases x <;> simp at hv)
+  | values todo acc =>
+    cases todo with
+    | nil => exact hg
+    | cons key todo =>
+      have hkey := hg.1 key (by simp)
+      cases hget : get? s (.key key.name) with
+      | none => have := hkey.2; simp [hget] at this
+      | some d =>
+        have hv := (hc _ d hget).1
+        cases hval : d.value with
+        | none => simp [hval] at hv
+        | some v =>
+          simp only [rstep, hget, Option.bind_some, hval]
+          apply good_advance
+          refine ⟨fun k' hk' => hg.1 k' (List.mem_cons_of_mem _ hk'), ?_⟩
+          intro p hp
+          simp only [List.mem_append, List.mem_singleton] at hp
+          rcases hp with h | rfl
+          · exact hg.2 p h
+          · exact ⟨hkey.1, by simp [hget, hval]⟩
+  | done r => exact hg
+
+/-- the reader's helper calls, each against the disk as it is at that moment -/
+def rrun (needInp : String → Bool) (order : List String) (k : RKind) : RPhase V → List (DirFS V) → RPhase V
+  | ph, [] => ph
+  | ph, s :: ss => rrun needInp order k (rstep needInp order s k ph) ss
+
+/-- a chain of disks, each growing into the next and all complete -/
+def GrowingChain (needInp : String → Bool) : List (DirFS V) → Prop
+  | [] => True
+  | [s] => Complete needInp s
+  | s :: s' :: ss => Complete needInp s ∧ Grows s s' ∧ GrowingChain needInp (s' :: ss)
+
+/-- **a listing reader against concurrent adders never fails and never reports anything that is not
+on disk**: whatever the schedule — i.e. whichever growing sequence of disks its helper calls meet —
+`keys()` / `items()` / `__asdict__()` / `cache.load()` do not raise, every key they report is a real
+stored key (no directory-name phantom), and every value is the value stored under that key in the
+disk of the reader's last step -/
+theorem C14_listing_vs_adders (needInp : String → Bool) (order : List String) (k : RKind)
+    (hk : k = .keys ∨ k = .asdict) (ss : List (DirFS V)) (s_last : DirFS V)
+    (hch : GrowingChain needInp (ss ++ [s_last])) :
+    Good s_last (rrun needInp order k .start (ss ++ [s_last])) := by
+  have aux : ∀ (ss : List (DirFS V)) (ph : RPhase V) (s0 : DirFS V), GrowingChain needInp (s0 :: (ss ++ [s_last])) → Good s0 ph →
+      Good s_last (rrun needInp order k ph (s0 :: (ss ++ [s_last]))) := by
+    intro ss
+    induction ss with
+    | nil =>
+      intro ph s0 hc hg
+      obtain ⟨hc0, hgr, hcl⟩ := hc
+      have h1 := good_mono hgr _ (good_step needInp order s0 k hk hc0 ph hg)
+      exact good_step needInp order s_last k hk (by simpa [GrowingChain] using hcl) _ h1
+    | cons s1 ss ih =>
+      intro ph s0 hc hg
+      obtain ⟨hc0, hgr, hrest⟩ := hc
+      have h1 := good_mono hgr _ (good_step needInp order s0 k hk hc0 ph hg)
+      exact ih _ s1 hrest h1
+  cases ss with
+  | nil => exact good_step needInp order s_last k hk (by simpa [GrowingChain] using hch) .start trivial
+  | cons s0 ss => exact aux ss .start s0 hch trivial
+
+/-- non-vacuity: `__asdict__()` started on `{a}` while a writer adds `b` between its calls runs to
+completion and returns `{a ↦ 1}` (it listed before `b` appeared) -/
+example : rrun (fun _ => false) ["a"] .asdict (.start : RPhase Nat)
+    [[(.key "a", { out := some (.full 1), inp := none })],
+     [(.key "a", { out := some (.full 1), inp := none }), (.key "b", { out := some (.full 2), inp := none })],
+     [(.key "a", { out := some (.full 1), inp := none }), (.key "b", { out := some (.full 2), inp := none })]]
+    = .done (.dict [({ name := "a", real := true }, 1)]) := by decide
+
 /-! ## `file_archive`: a reader sees a complete dict -/
 
 /-- while one writer saves, the archive file reads at every moment as the complete old or the
